@@ -68,9 +68,15 @@ func CheckC04(spec *vexec.CaseSpec, out *vexec.Outcome) (rs []Report, obligation
 			lastExit[e.Step] = e.Info
 		}
 	}
+	// ground truth: a step counts as "finished successfully" only if its last
+	// Run() actually returned without error
+	var neverRan []string
 	for name, f := range out.Final {
 		if f.Status != "finished" && f.Status != "skipped" {
 			allOK = false
+		}
+		if f.Status == "finished" && !isHandlerStep(name) && !strings.HasSuffix(lastExit[name], "|ok") {
+			neverRan = append(neverRan, name)
 		}
 		if f.Status == "failed" {
 			if by[name] != nil && by[name].SetupFail {
@@ -95,6 +101,13 @@ func CheckC04(spec *vexec.CaseSpec, out *vexec.Outcome) (rs []Report, obligation
 		obligations++
 		if status != want {
 			add("outcome-label", "run without stop ended with steps %s but is reported %q (expected %q)", finalVec(out), status, want)
+		}
+	case allOK && len(neverRan) > 0:
+		// stopped, and steps that never completed an execution are labelled finished
+		obligations++
+		sortStrings(neverRan)
+		if status == "finished" {
+			add("outcome-label", "run was stopped at event %d before completing: step(s) %v never finished an execution (no successful Run() exit) yet are recorded as finished and the run is reported %q (expected canceled)", out.StopSeq, neverRan, status)
 		}
 	case allOK:
 		obligations++
